@@ -1,7 +1,8 @@
 (* modelrun_printer: line protocol over the extracted C11 model (zutil.ml.inc is prepended).
    value grammar (tokens):  N hex | ES symhex txthex | EF n hex*n txthex | EN txthex | S hex | B hex
                           | T n v*n | R n v*n | V k n v*n (k = n|s|p) | Z | K | F namehex v | U namehex v 0|1 v
-   variant: four digits  fix_progress fix_b64 fix_end fix_sep  (1111 = repaired code, 0000 = pinned tree) *)
+   variant: four digits  fix_progress fix_b64 fix_end fix_sep  (1111 = repaired code, 0000 = pinned tree)
+   run <variant> <mode f|d|l> <size> <oracle: - or comma separated block sizes handed back by realloc, 0 = failure> <indent> <unquote> <noenum> value *)
 let zl h = zs_of_hex h
 let rec pval = function
   | "N" :: h :: r -> VNum (zl h), r
@@ -40,9 +41,11 @@ let mode = function "f" -> Fixed | "d" -> Dynamic | "l" -> File | _ -> failwith 
 let thash (tr : z list) =
   List.fold_left (fun h v -> (h * 1000003 + (int_of_z v + 1073741824)) mod 1000000007) 7 tr
 let b01 b = if b then "1" else "0"
+(* ret:err:viol:term:obad:oracle-left : diagnostic ntr:trh *)
 let summary (r : result) =
-  Printf.sprintf "%d:%d:%s:%s:%d:%d" (int_of_z r.r_ret) (int_of_z r.r_err) (b01 r.r_viol) (b01 r.r_term)
-    (List.length r.r_trace) (thash r.r_trace)
+  Printf.sprintf "%d:%d:%s:%s:%s:%d:%d:%d" (int_of_z r.r_ret) (int_of_z r.r_err) (b01 r.r_viol) (b01 r.r_term)
+    (b01 r.r_obad) (int_of_z r.r_orc_left) (List.length r.r_trace) (thash r.r_trace)
+let oracle s = if s = "-" then [] else List.map z_of_string (String.split_on_char ',' s)
 
 let handle = function
   | "text" :: var :: ind :: unq :: noe :: rest ->
@@ -52,10 +55,10 @@ let handle = function
       let wf = wfv pRINT_NUM_WRITE_MAX v && not (is_fieldlike v) in
       let ck = (match chk c Z0 ops with Some _ -> "1" | None -> "0") in
       Printf.sprintf "%s %s %s %d %s" (b01 wf) ck (b01 (no_perr ops)) (List.length ops) (hex_of_zs (text ops))
-  | "run" :: var :: m :: size :: ind :: unq :: noe :: rest ->
+  | "run" :: var :: m :: size :: orc :: ind :: unq :: noe :: rest ->
       let c, o = variant var in let f = flags ind unq noe in
       let v, _ = pval rest in
-      (match run_f c (root_ops o f v) (init c (mode m) (z_of_string size)) with
+      (match run_f c (root_ops o f v) (init c (mode m) (z_of_string size) (oracle orc)) with
        | None -> "HANG"
        | Some s -> let r = observe s in summary r ^ " " ^ hex_of_zs r.r_text ^ " " ^ String.concat "," (List.map string_of_z r.r_trace))
   | "sweep" :: var :: m :: from :: upto :: ind :: unq :: noe :: rest ->
@@ -66,7 +69,7 @@ let handle = function
       let buf = Buffer.create 4096 in
       for sz = a to b do
         if sz > a then Buffer.add_char buf ' ';
-        (match run_f c ops (init c (mode m) (z_of_int sz)) with
+        (match run_f c ops (init c (mode m) (z_of_int sz) []) with
          | None -> Buffer.add_string buf "H"
          | Some s -> Buffer.add_string buf (summary (observe s)))
       done;
